@@ -1,6 +1,7 @@
 (* C03/Model.v -- executable model of two-phase commit as implemented in
    tensor_chain/src/distributed_tx.rs: DistributedTxCoordinator::{begin, record_vote, commit, abort,
-   cleanup_timeouts, take_pending_aborts} and TxParticipant::{prepare, commit, abort}, plus a message bag
+   cleanup_timeouts, take_pending_aborts, recover, get_pending_decisions, complete_commit, complete_abort} and
+   TxParticipant::{prepare, commit, abort, cleanup_stale, recover}, plus a message bag
    with loss / duplication / reordering driven by an explicit event list.  DEFINITIONS ONLY.
    Ghost fields (dec, applied, discarded, cast, parts_of, dirty) record history for the theorems; no step reads them. *)
 From NV.Common Require Import Base LockTable.
@@ -16,7 +17,7 @@ Inductive vote := VYes (h : N) | VConflict (o : N).
 Definition is_yes (v : vote) : bool := match v with VYes _ => true | _ => false end.
 
 (* PreparedTx: lock handle, operations, undo log (storage key, captured pre-image; None = key was absent) *)
-Record prep := Prep { p_handle : N; p_ops : list pop; p_undo : list (N * option N) }.
+Record prep := Prep { p_handle : N; p_ops : list pop; p_undo : list (N * option N); p_at : N (* prepared_at_ms *) }.
 
 Record part := Part {
   prepared : list (N * prep);
@@ -36,7 +37,7 @@ Definition p_prepare (now h : N) (p : part) (tx : N) (ops : list pop) : part * v
   if mem tx (decidedp p) then (p, VConflict 0) else
   match try_lock now tx h (ptmo p) (map pop_key ops) (ptbl p) with
   | (t', inl _) =>
-      (Part (aset (prepared p) tx (Prep h ops (map (capture (store p)) ops))) t' (store p) (ptmo p)
+      (Part (aset (prepared p) tx (Prep h ops (map (capture (store p)) ops) now)) t' (store p) (ptmo p)
             (set_remove tx (dirty p)) (decidedp p),
        VYes h)
   | (_, inr o) => (p, VConflict o)
@@ -78,24 +79,50 @@ Definition p_abort (p : part) (tx : N) : part :=
   | None => Part (prepared p) (ptbl p) (store p) (ptmo p) (dirty p) (set_add tx (decidedp p))
   end.
 
+(* a housekeeping sweep drops a prepared transaction exactly like an abort message does (undo images re-applied in
+   reverse, locks released by handle) but does NOT enter it into `decided` *)
+Definition p_drop (p : part) (tx : N) : part :=
+  let q := p_abort p tx in Part (prepared q) (ptbl q) (store q) (ptmo q) (dirty q) (decidedp p).
+
+Fixpoint insert_sorted (x : N) (l : list N) : list N :=
+  match l with [] => [x] | y :: r => if N.leb x y then x :: l else y :: insert_sorted x r end.
+Definition sortN (l : list N) : list N := fold_right insert_sorted [] l.
+
+(* TxParticipant::cleanup_stale(timeout)  (strict = false: age >= timeout; returns the dropped ids) and
+   TxParticipant::recover(timeout)        (strict = true:  age >  timeout; then locks.cleanup_expired(); returns the
+   ids still awaiting a decision).  HashMap order canonicalised: ascending tx id (the harness never sweeps a shard
+   on which two prepared transactions share a key, the only case in which the order matters) *)
+Definition stale (now tmo : N) (strict : bool) (e : prep) : bool :=
+  if strict then N.ltb tmo (now - p_at e) else N.leb tmo (now - p_at e).
+Definition p_sweep (now tmo : N) (strict : bool) (p : part) : part * list N :=
+  let ids := sortN (map fst (filter (fun te => stale now tmo strict (snd te)) (prepared p))) in
+  let p1 := fold_left p_drop ids p in
+  if strict then
+    let p2 := Part (prepared p1) (fst (cleanup_expired now (ptbl p1))) (store p1) (ptmo p1) (dirty p1) (decidedp p1) in
+    (p2, sortN (map fst (prepared p2)))
+  else (p1, ids).
+
 (* ------------------------------------------------------------------ coordinator *)
-(* phase: 0 Preparing, 1 Prepared, 2 Aborting  (Committing/Committed/Aborted are transient inside commit/abort) *)
+(* phase: 0 Preparing, 1 Prepared, 2 Aborting, 3 Committing (Committed/Aborted are transient inside commit/abort).
+   `pending` of the implementation = `pending` (phases 0-2) + `committing` (phase 3, entered only through recover():
+   inside commit() the phase is transient) *)
 Record ctx := Ctx { c_phase : N; c_parts : list N; c_votes : list (N * vote); c_started : N; c_tmo : N; c_xconf : bool }.
-Record coord := Co { pending : list (N * ctx); aborts : list (N * list N); nextid : N; prep_tmo : N }.
-Definition coord_init (tmo0 : N) : coord := Co [] [] 1 tmo0.
+Record coord := Co { pending : list (N * ctx); aborts : list (N * list N); nextid : N; prep_tmo : N; committing : list (N * ctx) }.
+Definition coord_init (tmo0 : N) : coord := Co [] [] 1 tmo0 [].
 
 Definition all_voted (c : ctx) : bool := forallb (fun sh => match aget (c_votes c) sh with Some _ => true | None => false end) (c_parts c).
 Definition all_yes (c : ctx) : bool := forallb (fun sv => is_yes (snd sv)) (c_votes c).
 
-Definition set_pending (c : coord) (pd : list (N * ctx)) : coord := Co pd (aborts c) (nextid c) (prep_tmo c).
+Definition set_pending (c : coord) (pd : list (N * ctx)) : coord := Co pd (aborts c) (nextid c) (prep_tmo c) (committing c).
+Definition is_committing (c : coord) (tx : N) : bool := match aget (committing c) tx with Some _ => true | None => false end.
 
 Definition c_begin (now : N) (c : coord) (parts : list N) (xconf : bool) : coord * N :=
-  (Co (aset (pending c) (nextid c) (Ctx 0 parts [] now (prep_tmo c) xconf)) (aborts c) (nextid c + 1) (prep_tmo c), nextid c).
+  (Co (aset (pending c) (nextid c) (Ctx 0 parts [] now (prep_tmo c) xconf)) (aborts c) (nextid c + 1) (prep_tmo c) (committing c), nextid c).
 
 (* record_vote: 0 Ok(None), 1 Ok(Some(Prepared)), 2 Ok(Some(Aborting)), 3 TxNotFound, 4 WrongPhase, 5 DuplicateVote *)
 Definition c_vote (c : coord) (tx sh : N) (v : vote) : coord * N :=
   match aget (pending c) tx with
-  | None => (c, 3)
+  | None => (c, if is_committing c tx then 4 else 3)
   | Some t =>
       if negb (N.eqb (c_phase t) 0) then (c, 4)
       else match aget (c_votes t) sh with
@@ -107,7 +134,7 @@ Definition c_vote (c : coord) (tx sh : N) (v : vote) : coord * N :=
                    (set_pending c (aset (pending c) tx (Ctx 1 (c_parts t1) (c_votes t1) (c_started t1) (c_tmo t1) (c_xconf t1))), 1)
                  else
                    (Co (aset (pending c) tx (Ctx 2 (c_parts t1) (c_votes t1) (c_started t1) (c_tmo t1) (c_xconf t1)))
-                       (aborts c ++ [(tx, c_parts t1)]) (nextid c) (prep_tmo c), 2)
+                       (aborts c ++ [(tx, c_parts t1)]) (nextid c) (prep_tmo c) (committing c), 2)
                else (set_pending c (aset (pending c) tx t1), 0)
            end
   end.
@@ -115,14 +142,15 @@ Definition c_vote (c : coord) (tx sh : N) (v : vote) : coord * N :=
 (* commit: 0 Ok, 1 not found, 2 not in prepared phase; returns the participants on success *)
 Definition c_commit (c : coord) (tx : N) : coord * N * list N :=
   match aget (pending c) tx with
-  | None => (c, 1, [])
+  | None => (c, if is_committing c tx then 2 else 1, [])
   | Some t => if N.eqb (c_phase t) 1 then (set_pending c (adel (pending c) tx), 0, c_parts t) else (c, 2, [])
   end.
 
-(* abort: 0 Ok, 1 not found (any phase can be aborted) *)
+(* abort: 0 Ok, 1 not found, 2 refused: the transaction is Committing (its decision is commit); every other phase
+   can be aborted *)
 Definition c_abort (c : coord) (tx : N) : coord * N * list N :=
   match aget (pending c) tx with
-  | None => (c, 1, [])
+  | None => (c, if is_committing c tx then 2 else 1, [])
   | Some t => (set_pending c (adel (pending c) tx), 0, c_parts t)
   end.
 
@@ -133,14 +161,50 @@ Fixpoint insert_by_fst {A} (x : N * A) (l : list (N * A)) : list (N * A) :=
   match l with [] => [x] | y :: r => if N.leb (fst x) (fst y) then x :: l else y :: insert_by_fst x r end.
 Definition sort_by_fst {A} (l : list (N * A)) : list (N * A) := fold_right insert_by_fst [] l.
 
-(* cleanup_timeouts: every timed-out tx (ANY phase) is removed and an abort broadcast queued.
+(* cleanup_timeouts: every timed-out tx (any phase but Committing) is removed and an abort broadcast queued.
    HashMap order is canonicalised: ascending tx id *)
 Definition c_timeouts (now : N) (c : coord) : coord * list (N * list N) :=
   let out := sort_by_fst (map (fun kt => (fst kt, c_parts (snd kt))) (filter (fun kt => timed_out now (snd kt)) (pending c))) in
-  (Co (filter (fun kt => negb (timed_out now (snd kt))) (pending c)) (aborts c ++ out) (nextid c) (prep_tmo c), out).
+  (Co (filter (fun kt => negb (timed_out now (snd kt))) (pending c)) (aborts c ++ out) (nextid c) (prep_tmo c) (committing c), out).
 
 Definition c_take (c : coord) : coord * list (N * list N) :=
-  (Co (pending c) [] (nextid c) (prep_tmo c), aborts c).
+  (Co (pending c) [] (nextid c) (prep_tmo c) (committing c), aborts c).
+
+(* recover(): a timed-out Preparing / Prepared transaction becomes Aborting; a Prepared one whose votes are all Yes
+   becomes Committing (THE COMMIT DECISION), one with a No becomes Aborting; Committing / Aborting stay.
+   category: 0 timed_out, 1 pending_prepare, 2 pending_commit, 3 pending_abort *)
+Definition any_no (c : ctx) : bool := existsb (fun sv => negb (is_yes (snd sv))) (c_votes c).
+Definition set_phase (t : ctx) (ph : N) : ctx := Ctx ph (c_parts t) (c_votes t) (c_started t) (c_tmo t) (c_xconf t).
+Definition recover_cat (now : N) (t : ctx) : N * N :=      (* (new phase, category) *)
+  if N.eqb (c_phase t) 0 then (if timed_out now t then (2, 0) else (0, 1))
+  else if N.eqb (c_phase t) 1 then
+    (if timed_out now t then (2, 0) else if all_yes t then (3, 2) else if any_no t then (2, 3) else (1, 1))
+  else (2, 3).
+Definition to_commit (now : N) (kt : N * ctx) : bool := N.eqb (fst (recover_cat now (snd kt))) 3.
+Definition c_recover (now : N) (c : coord) : coord :=
+  Co (map (fun kt => (fst kt, set_phase (snd kt) (fst (recover_cat now (snd kt))))) (filter (fun kt => negb (to_commit now kt)) (pending c)))
+     (aborts c) (nextid c) (prep_tmo c)
+     (committing c ++ map (fun kt => (fst kt, set_phase (snd kt) 3)) (filter (to_commit now) (pending c))).
+Definition count_cat (now : N) (c : coord) (k : N) : N :=
+  N.of_nat (length (filter (fun kt => N.eqb (snd (recover_cat now (snd kt))) k) (pending c)))
+  + (if N.eqb k 2 then N.of_nat (length (committing c)) else 0).
+(* get_pending_decisions(): (tx, phase) of every Committing / Aborting transaction, ascending tx id *)
+Definition c_decisions (c : coord) : list (N * (N * list N)) :=
+  sort_by_fst (map (fun kt => (fst kt, (3, c_parts (snd kt)))) (committing c)
+               ++ map (fun kt => (fst kt, (2, c_parts (snd kt)))) (filter (fun kt => N.eqb (c_phase (snd kt)) 2) (pending c))).
+
+(* complete_commit: 0 Ok, 1 not found, 2 not in committing phase *)
+Definition c_complete_commit (c : coord) (tx : N) : coord * N :=
+  match aget (committing c) tx with
+  | Some _ => (Co (pending c) (aborts c) (nextid c) (prep_tmo c) (adel (committing c) tx), 0)
+  | None => (c, match aget (pending c) tx with Some _ => 2 | None => 1 end)
+  end.
+(* complete_abort: 0 Ok, 1 not found, 2 not in aborting phase *)
+Definition c_complete_abort (c : coord) (tx : N) : coord * N :=
+  match aget (pending c) tx with
+  | Some t => if N.eqb (c_phase t) 2 then (set_pending c (adel (pending c) tx), 0) else (c, 2)
+  | None => (c, if is_committing c tx then 2 else 1)
+  end.
 
 (* ------------------------------------------------------------------ network + driver *)
 Inductive msg :=
@@ -158,6 +222,11 @@ Inductive ev :=
 | ETimeouts                            (* cleanup_timeouts *)
 | ETakeAborts                          (* take_pending_aborts, broadcast *)
 | EAdvance (d : N)
+| ERecover                             (* coordinator.recover(), then get_pending_decisions() and a Commit / Abort message to
+                                          every participant of each listed transaction *)
+| ECompleteCommit (tx : N)             (* coordinator.complete_commit *)
+| ECompleteAbort (tx : N)              (* coordinator.complete_abort *)
+| ESweep (sh : N) (strict : bool) (tmo : N)   (* participant housekeeping: cleanup_stale(tmo) / recover(tmo) on shard sh *)
 | EStray (tx sh : N) (yes : bool).   (* a misrouted / stale vote carrying tx's id: from a shard that is NOT one of its participants,
                                         or a duplicate (possibly with different content) for a participant that already voted *)
 
@@ -264,6 +333,30 @@ Definition gstep (g : gst) (e : ev) : gst * list N :=
        flat_aborts q')
   | EAdvance d =>
       (G (co g) (ps g) (net g) (gnow g + d) (gh g) (dec g) (applied g) (discarded g) (cast g) (parts_of g), [])
+  | ERecover =>
+      let c' := c_recover (gnow g) (co g) in
+      let ds := c_decisions c' in
+      let newly := map (fun kt => (fst kt, true)) (filter (to_commit (gnow g)) (pending (co g))) in
+      (G c' (ps g)
+         (net g ++ flat_map (fun d => bcast (if N.eqb (fst (snd d)) 3 then MCommit (fst d) else MAbort (fst d)) (snd (snd d))) ds)
+         (gnow g) (gh g) (dec g ++ newly) (applied g) (discarded g) (cast g) (parts_of g),
+       [count_cat (gnow g) (co g) 0; count_cat (gnow g) (co g) 1; count_cat (gnow g) (co g) 2; count_cat (gnow g) (co g) 3]
+       ++ flat_map (fun d => [fst d; fst (snd d)]) ds)
+  | ECompleteCommit tx =>
+      let '(c', r) := c_complete_commit (co g) tx in
+      (G c' (ps g) (net g) (gnow g) (gh g) (dec g) (applied g) (discarded g) (cast g) (parts_of g), [r])
+  | ECompleteAbort tx =>
+      let '(c', r) := c_complete_abort (co g) tx in
+      (G c' (ps g) (net g) (gnow g) (gh g) (if N.eqb r 0 then dec g ++ [(tx, false)] else dec g)
+         (applied g) (discarded g) (cast g) (parts_of g), [r])
+  | ESweep sh strict tmo =>
+      match nth_part (ps g) sh with
+      | None => (g, [9])
+      | Some p =>
+          let '(p', out) := p_sweep (gnow g) tmo strict p in
+          (G (co g) (set_nth (ps g) (N.to_nat sh) p') (net g) (gnow g) (gh g) (dec g) (applied g) (discarded g) (cast g) (parts_of g),
+           out)
+      end
   | EStray tx sh yes =>
       match aget (pending (co g)) tx with
       | Some t =>
@@ -272,7 +365,7 @@ Definition gstep (g : gst) (e : ev) : gst * list N :=
           if mem sh (c_parts t) && negb (match aget (c_votes t) sh with Some _ => true | None => false end) then (g, [9])
           else let '(c', r) := c_vote (co g) tx sh (if yes then VYes 0 else VConflict 0) in
                (G c' (ps g) (net g) (gnow g) (gh g) (dec g) (applied g) (discarded g) (cast g) (parts_of g), [r])
-      | None => (g, [3])
+      | None => (g, [if is_committing (co g) tx then 4 else 3])
       end
   end.
 
